@@ -392,6 +392,74 @@ def rule_p4(ctx, F):
                 {"site": fn.loc(v.pt), "path": s.render_path(v.path)[-6:]})
 
 
+def rule_p5(ctx, F):
+    """The freshness test covers what gets compiled: the list handed to needs_recompile is fed from
+    the parser source, the scanner path and the external files, and the scanner path it takes is the
+    *resolved* one — no store to config.scanner_path happens after the value was read for the list."""
+    from rsrules import deep_text
+    fn = ctx.need_fn(F, FN, "P5")
+    if not fn:
+        return
+    nr = calls_named(fn, "needs_recompile")
+    if not nr:
+        ctx.bad("P5", "load:freshness-list", "needs_recompile is no longer called in %s" % FN)
+        return
+    lst = rsrules.trace_root(fn, nr[0][1]["a"][1])
+    feeds = []
+    for pt, e in fn.points():
+        for n in own_walk(e):
+            if n.get("k") == "call" and len(n.get("a", [])) >= 2 and rsrules.trace_root(fn, n["a"][0]) == lst and \
+                    any(x in ((n.get("fn") or "") + (n.get("tfn") or "")) for x in ("::push", "::extend", "::insert")):
+                feeds.append((pt, n, deep_text(fn, n["a"][1], user=True)))
+    init = " ".join(deep_text(fn, d, user=True) for i in fn.ids_named(lst) for d in fn.defs(i) if isinstance(d, dict)) if lst else ""
+    alltxt = init + " " + " ".join(t for _, _, t in feeds)
+    # the vec![..] initialiser is built through a boxed array: its operands are the non-expansion moves on the
+    # line of the list's definition
+    def_lines = set()
+    for pt, e in fn.points():
+        for n in own_walk(e):
+            if n.get("k") == "assign" and strip(n["l"]).get("k") == "ref" and strip(n["l"]).get("name") == lst and (n.get("loc") or {}).get("l"):
+                def_lines.add(n["loc"]["l"])
+    for pt, e in fn.points():
+        for n in own_walk(e):
+            lc = n.get("loc") or {}
+            if n.get("k") == "assign" and lc.get("l") in def_lines and not lc.get("exp") and strip(n["l"]).get("k") == "ref" and "PathBuf" in (strip(n["l"]).get("t") or ""):
+                alltxt += " " + deep_text(fn, n["r"], user=True)
+    for what, needle in (("the parser source", "parser.c"), ("the scanner source", "scanner_path"), ("the external files", "external_files")):
+        if needle in alltxt or (needle == "parser.c" and "parser_path" in alltxt):
+            ctx.ok("P5", "load:freshness-covers-" + needle, "the list given to needs_recompile is fed from %s" % what)
+        else:
+            ctx.bad("P5", "load:freshness-covers-" + needle, "%s: the list given to needs_recompile is no longer fed from %s: editing it leaves a stale library in use" % (FN, what))
+    # stale read of the scanner path
+    slice_ids = set()
+    work = [n["a"][1] for _, n, t in feeds if "scanner_path" in t]
+    while work:
+        x = work.pop()
+        for y in walk(x):
+            if y.get("k") == "ref" and y.get("dk") == "local" and y["id"] not in slice_ids:
+                slice_ids.add(y["id"])
+                work.extend(d for d in fn.defs(y["id"]) if isinstance(d, dict))
+    is_sp = lambda y: y.get("k") == "mem" and y.get("f") == "scanner_path"
+    reads = [pt for pt, e in fn.points() for n in own_walk(e) if n.get("k") == "assign" and strip(n["l"]).get("k") == "ref" and strip(n["l"])["id"] in slice_ids and any(is_sp(y) for y in walk(n["r"]))]
+    stores = [pt for pt, e in fn.points() for n in own_walk(e) if n.get("k") == "assign" and is_sp(strip(n["l"]))]
+    ctx.floor("reads of config.scanner_path feeding the freshness list", len(reads), 1)
+    if reads:
+        class Stale(Monitor):
+            def elem(self, m, pt, e, s):
+                if pt in reads:
+                    return True
+                if pt in stores and m:
+                    return Viol("config.scanner_path is (re)assigned after its value was taken for the freshness list", pt)
+                return m
+        srch = Search(fn, Stale(), budget=3000000)
+        v = srch.run(False)
+        if v is None:
+            ctx.ok("P5", "load:freshness-takes-resolved-scanner-path", "the scanner path enters the freshness list only after its last assignment (%d read(s), %d store(s))" % (len(reads), len(stores)))
+        else:
+            ctx.bad("P5", "load:freshness-takes-resolved-scanner-path", "%s: %s (%s): an auto-detected scanner.c is compiled but never compared with the library's age" % (FN, v.msg, fn.loc(v.pt)),
+                    {"site": fn.loc(v.pt), "path": srch.render_path(v.path)[-5:]})
+
+
 def run(ctx):
     ctx.config = "rust"
     F = ctx.extract.rsfacts("tree_sitter_loader")
@@ -403,6 +471,7 @@ def run(ctx):
     rule_w2(ctx, F)
     rule_p3(ctx, F)
     rule_p4(ctx, F)
+    rule_p5(ctx, F)
     return ctx.finish(
         "Protocol-shape rules over rustc MIR of tree-sitter-loader (non-unwind edges): compile only in the Some arm of LockFile::create and never after waiting; the lock is dropped on "
         "every path out and before loading; compilers write temp_path(output) and rename only after every tool run succeeded, removing the temp file on failure; create_new / remove-on-drop / "
